@@ -183,13 +183,26 @@ def rule_expand_order(ctx: Ctx, rule: str) -> None:
     ctx.ob(rule, f'{WP}:expand/nesting', ok, repo.loc(WP, ex.node), 'for expanded in expand_braces(…): for s in split(expanded, flags): yield expand_tilde(s, is_unix_style(flags), flags)',
            'as expected' if ok else '; '.join(sorted(got))[:300], witness="fnmatch('a|b', '{a|b,c}', BRACE|SPLIT): braces expand before splitting")
     eb = repo.func(WP, 'expand_braces')
-    q = fq(eb)
-    it = q.calls(lambda s: s == 'bracex.iexpand')
-    okb = len(it) == 1 and q.guarded(it[0], 'flags & BRACE', 'T') and any(k.arg == 'keep_escapes' and norm_src(k.value) == 'True' for k in it[0].keywords)
-    ctx.ob(rule, f'{WP}:expand_braces/guard', okb, repo.loc(WP, eb.node), 'bracex.iexpand(p, keep_escapes=True, …) iff flags & BRACE', str(okb),
-           witness=r"fnmatch('{a,b}', r'\{a,b\}', BRACE): escapes must survive expansion")
-    ys2 = [y for y in walk_no_nested(eb.node) if isinstance(y, ast.Yield) and q.guarded(y, 'flags & BRACE', 'F')]
-    ctx.ob(rule, f'{WP}:expand_braces/passthrough', len(ys2) == 1 and norm_src(ys2[0].value) == 'p', repo.loc(WP, eb.node), 'without BRACE each pattern passes unchanged', str(len(ys2)))
+    from .common import api_table
+    _ev2, rows = api_table(repo, WP, 'expand_braces')
+    BR = repo.const(WP, 'BRACE')
+    bad_g, bad_p = [], []
+    for p in rows:
+        focus(p)
+        br = p.decisions.get(f'bit:flags:{BR:x}')
+        one = p.decisions.get('isinstance(patterns, (str, bytes))')
+        X = '[patterns]' if one else 'patterns'
+        ys = [tuple(_tag(x) for x in y[1]) if isinstance(y[1], tuple) else _tag(y[1]) for y in p.of('yield')]
+        if br is None or one is None:
+            bad_g.append(f'BRACE={br} single={one}: not decided')
+        elif br:
+            if ys != [("'from'", f'bracex.iexpand(elem({X}), keep_escapes=True, limit=limit)')]:
+                bad_g.append(f'BRACE set: yields {ys}')
+        elif ys not in ([("'from'", X)], [f'elem({X})']):
+            bad_p.append(f'BRACE clear: yields {ys}')
+    ctx.ob(rule, f'{WP}:expand_braces/guard', not bad_g and len(rows) >= 4, repo.loc(WP, eb.node), 'bracex.iexpand(p, keep_escapes=True, limit=limit) for every pattern iff flags & BRACE',
+           f'{len(rows)} rows agree' if not bad_g else bad_g[0][:200], witness=r"fnmatch('{a,b}', r'\{a,b\}', BRACE): escapes must survive expansion")
+    ctx.ob(rule, f'{WP}:expand_braces/passthrough', not bad_p, repo.loc(WP, eb.node), 'without BRACE each pattern passes unchanged', 'as expected' if not bad_p else bad_p[0][:200])
     sp = repo.func(WP, 'split')
     q2 = fq(sp)
     yf = [y for y in walk_no_nested(sp.node) if isinstance(y, ast.YieldFrom)]
